@@ -252,9 +252,13 @@ def gen_pattern(rng: random.Random) -> Tuple[str, Set[str]]:
             body = "(" + body + "|" + _gen_concat(rng, depth - 1, feats, True) + ")"
             feats.add("alternation")
             feats.add("group")
-    if rng.random() < 0.07:
+    roll = rng.random()
+    if roll < 0.07:
         body += ".*"
         feats.add("arbitrary-suffix")
+    elif roll < 0.10:
+        body += "." + rng.choice(["+", "?", "{1,}", "{2,}", "{0,1}", "{,3}", "{0,}"])
+        feats.add("quantified-dot-suffix")
     return "^" + body + "$", feats
 
 
@@ -273,7 +277,8 @@ def gen_tame_pattern(rng: random.Random) -> Tuple[str, Set[str]]:
 
 
 FIXED = [
-    "^$", "^a$", "^.$", "^.*$", "^a.*$", "^.*.*$", "^(a|b)*.*$", "^a*$", "^a+$", "^a?$", "^ab$",
+    "^$", "^a$", "^.$", "^.*$", "^a.*$", "^a.+$", "^.+$", "^a.{2,}$", "^(a|b).{1,}$", "^a.?$",
+    "^a.{0,2}$", "^a(.*)$", "^a[^b]*$", "^.*.*$", "^(a|b)*.*$", "^a*$", "^a+$", "^a?$", "^ab$",
     "^(a|b)$", "^(a|b|c)$", "^[a-b]$", "^[^a-b]$", "^0x[A-Fa-f0-9]$", "^[A-Fa-f0-9]$",
     "^a{3}$", "^a{2,}$", "^a{2,4}$", "^a{,2}$", "^a{0}$", "^a{0,0}b$", "^a{1}$", "^a{1,1}$",
     "^(ab){2,3}$", "^(a|bc){1,2}d$", "^(a*)*$", "^(a+)+$", "^(a|b*)*c$", "^((a*)*)*$",
